@@ -389,10 +389,23 @@ func (p *parser) parseNotExpression(depth int) ast.Child {
 	}
 
 	var child ast.Child
-	if item := p.peek(); item.Typ == itemParenLeft {
+	switch item := p.peek(); item.Typ {
+	case itemParenLeft:
 		p.next() // consume paren
-		child = p.parsePermissionExpressions(itemParenRight, depth-1)
-	} else {
+		rewrite := p.parsePermissionExpressions(itemParenRight, depth-1)
+		if rewrite == nil {
+			// Do not store a typed nil pointer in the interface: an empty
+			// group, such as `!()`, is not an expression.
+			if !p.fatal {
+				p.addFatal(item, "expected an expression after '!('")
+			}
+			return nil
+		}
+		child = rewrite
+	case itemOperatorNot:
+		p.next() // consume operator
+		child = p.parseNotExpression(depth - 1)
+	default:
 		child = p.parsePermissionExpression()
 	}
 	if child == nil {
